@@ -61,8 +61,82 @@ pub fn lookups() -> Vec<(Option<ProcCtor>, Base, &'static str, &'static str, u8)
     v
 }
 
+/// history phase: (first lookup, which gets one fault; second lookup, fault-free and judged; class of the second)
+pub fn history_scenarios() -> Vec<(Op, Op, &'static str)> {
+    let open = |p: &str, follow: bool| Op::ProcOpen { handle: Some(0), base: Base::Root, path: p.into(), flags: if follow { libc::O_RDONLY | libc::O_NONBLOCK } else { libc::O_RDONLY | libc::O_NONBLOCK }, follow };
+    vec![
+        (open("sys/kernel/ostype", false), open("sys/kernel/ostype", false), "masked"),
+        (open("sys/kernel/ostype", false), open("filesystems", false), "masked"),
+        (open("mounts", true), open("mounts", true), "masked"),
+        (open("definitely-missing", false), open("sys/kernel/ostype", false), "masked"),
+        (open("filesystems", false), open("definitely-missing", false), "missing"),
+        (Op::ProcReadlink { handle: Some(0), base: Base::Root, path: "mounts".into(), bufsz: 256 }, Op::ProcReadlink { handle: Some(0), base: Base::Root, path: "net".into(), bufsz: 256 }, "masked"),
+    ]
+}
+
+fn history_case(uni: &UniCfg, sc: usize, script: Vec<crate::sup::Dec>) -> Case {
+    let (a, b, class) = history_scenarios()[sc].clone();
+    let mut c = Case::new("C08", "history", uni.clone());
+    c.jobs = vec![vec![OpSpec::new(Op::ProcNew { ctor: ProcCtor::New, store: 0 }), OpSpec::new(a), OpSpec::new(b)]];
+    c.plan.script = script;
+    c.extra = json!({"class": class, "priv": "root", "ctor": "Some(New)", "path": "second lookup", "operation": "history"});
+    c
+}
+
+fn run_history(u: &mut Universe, b: &Batch, sc: u64, st: &mut Stats) -> bool {
+    let out0 = run_case(u, &history_case(&b.uni, sc as usize, vec![]), &mut crate::sup::NoHooks, false);
+    if let Some(e) = &out0.harness_error {
+        st.harness_errors.push(format!("history {sc}: {e}"));
+        return false;
+    }
+    let sites: Vec<(usize, i64)> = out0.trace.iter().filter(|e| e.lib && e.op == Some(1) && e.nr != crate::seam::HYPERCALL_NR && e.nr != libc::SYS_futex).map(|e| (e.step, e.nr)).collect();
+    for (step, nr) in sites {
+        for f in crate::sup::fault_catalogue(nr) {
+            let case = history_case(&b.uni, sc as usize, vec![crate::sup::Dec { step, fault: Some(f), ..Default::default() }]);
+            let out = run_case(u, &case, &mut crate::sup::NoHooks, false);
+            if let Some(e) = &out.harness_error {
+                st.harness_errors.push(format!("history {sc}@{step}: {e}"));
+                return false;
+            }
+            st.evaluations += 1;
+            st.merge_runout(&out);
+            st.nontrivial.insert(case.hash());
+            st.count("history.placements", 1);
+            // judge the second lookup (op 2) exactly like a matrix cell: it ran without any fault
+            let mut out2 = out;
+            out2.records.retain(|r| r.idx == 2 || matches!(r.outcome, Outcome::Panic(_)));
+            if out2.records.iter().all(|r| r.idx != 2) {
+                continue; // the constructor or the first lookup did not return normally (C10's subject)
+            }
+            let mut seen = std::collections::BTreeSet::new();
+            for (clause, detail) in judge(&case, &out2) {
+                let clause = format!("{clause}:after-a-transient-fault-in-an-earlier-lookup");
+                if seen.insert(clause.clone()) {
+                    let v = mk_violation(&case, &out2, "C08", &clause, "proc_open", detail);
+                    st.violation(&v);
+                }
+            }
+            if u.poisoned {
+                return false;
+            }
+        }
+    }
+    true
+}
+
 pub fn plan(tier: &str, seed: u64) -> Vec<Batch> {
     let mut v = Vec::new();
+    // history: a privileged caller on a masked host /proc; one transient fault in a first lookup
+    // must not change what a second, fault-free lookup reports
+    for po in ["subset=pid", "hidepid=2", ""] {
+        for e in [false, true] {
+            let mut u = if e { UniCfg::e() } else { UniCfg::k() };
+            u.proc_opts = po.to_string();
+            for sc in 0..history_scenarios().len() as u64 {
+                v.push(Batch { check: "C08".into(), phase: "history".into(), uni: u.clone(), seed, lo: sc, hi: sc + 1, fresh: false, tier: tier.into(), extra: json!({"priv": "root"}) });
+            }
+        }
+    }
     let n = lookups().len() as u64;
     for (i, (uni, pname)) in cells().into_iter().enumerate() {
         v.push(Batch { check: "C08".into(), phase: "matrix".into(), uni, seed, lo: 0, hi: n, fresh: false, tier: tier.into(), extra: json!({"priv": pname, "cell": i}) });
@@ -183,6 +257,12 @@ pub fn run(u: &mut Universe, b: &Batch, st: &mut Stats) {
     let privname = b.extra["priv"].as_str().unwrap_or("").to_string();
     for idx in b.lo..b.hi {
         coord::progress(idx);
+        if b.phase == "history" {
+            if !run_history(u, b, idx, st) {
+                return;
+            }
+            continue;
+        }
         let case = if b.phase == "replay" {
             match Case::from_json(&b.extra["case"]) {
                 Some(c) => c,
@@ -229,12 +309,12 @@ pub fn finalise(tier: &str, seed: u64, res: coord::CheckResult) -> i32 {
         tier,
         seed,
         "fault_enumeration",
-        "a finite configuration matrix enumerated completely: caller privilege {root; root with the new mount API refused (EPERM); root with only fsopen refused; real unprivileged uid without capabilities} x host /proc mounted with {default, hidepid=1, hidepid=2, hidepid=ptraceable, subset=pid} x procfs resolver {K, E} x operation {open, open_follow, readlink} x constructor {global handle through the C API, ProcfsHandle::new, try_from_fd on a plain open} x base x sub-path {missing, missing in a missing directory, existing file/directory/link, masked-but-existing file and link (mounts, net)}; per lookup the seam counts procfs handles created, descriptors held and trapped calls; non-trivial and distinct = every cell x lookup is a distinct configuration",
+        "a finite configuration matrix enumerated completely: caller privilege {root; root with the new mount API refused (EPERM); root with only fsopen refused; real unprivileged uid without capabilities} x host /proc mounted with {default, hidepid=1, hidepid=2, hidepid=ptraceable, subset=pid} x procfs resolver {K, E} x operation {open, open_follow, readlink} x constructor {global handle through the C API, ProcfsHandle::new, try_from_fd on a plain open} x base x sub-path {missing, missing in a missing directory, existing file/directory/link, masked-but-existing file and link (mounts, net)}; history phase: a privileged caller with a masked private handle, host /proc {subset=pid, hidepid=2, default}: one errno of the catalogue at every system call of a first lookup, then a second, fault-free lookup that is judged like a matrix cell (a transient failure must not turn 'exists' into ENOENT for later lookups); per lookup the seam counts procfs handles created, descriptors held and trapped calls; non-trivial and distinct = every cell x lookup is a distinct configuration",
         res,
         extra,
         vec!["the bounds (4 handles, 16 descriptors, 2000 calls per lookup) are the check's reading of 'a constant number'".into(), "RLIMIT_NOFILE is 256 in every universe so that an unbounded retry is observed instead of exhausting memory".into()],
         true,
-        &|b, run| Some(case_for(&b.uni, run as usize, b.extra["priv"].as_str().unwrap_or(""))),
+        &|b, run| if b.phase == "history" { Some(history_case(&b.uni, run as usize, vec![])) } else { Some(case_for(&b.uni, run as usize, b.extra["priv"].as_str().unwrap_or(""))) },
     )
     .exit_code
 }
